@@ -39,6 +39,8 @@ func c20(c *Ctx) (*report.Result, error) {
 	}
 	res.Explanation = "SSA of adminServiceProxyServer.StreamWorkflowReplicationMessages (placement of the deferred panic capture, error returns of the metadata decode, balance of the stream counter), critical-section analysis (P-CS) of every Lock/RLock on the mutex fields of proxy.ReplicationStreamObserver and proxy.StreamTracker - the two bookkeeping objects shared by all streams - with a closed, conservative may-panic classification, and an interprocedural taint walk from the results of history.DecodeClusterShardMD through module functions (including the function-valued reportStreamValue field, resolved by signature to every function value of that type in the module) to arithmetic on types narrower than 64 bits. A panic in the handler is recovered by CapturePanic, so a lock held without defer at a may-panic instruction is exactly a wedge for all later streams. Does not decide memory use proportional to a legitimately large shard id."
 	res.Assumptions = []string{"log.CapturePanic recovers and converts a panic into the error result", "the may-panic table (total functions) in the checker; nil dereferences and nil-map writes are out of scope"}
+	res.RuleDoc["O20.10"] = "no swallowed error in the files the mechanism lives in: no function returns a nil error on a path on which an error obtained from a call is known to be non-nil (io.EOF from a stream Recv, the normal end of a receive loop, is the one accepted idiom)"
+	checkNoSwallowedErrors(c, res, "O20.10", []string{"proxy/adminservice.go", "proxy/replication_stream_observer.go", "proxy/stream_tracker.go"})
 	return res, nil
 }
 
